@@ -126,6 +126,113 @@ def e2e_rows(job):
     return out
 
 
+def compile_run(src, args, opt=False):
+    """-> ('reject', why) | ('value', v) | ('vm-error', text)"""
+    st, r = common.compile_source(src, {"optimize": opt})
+    if st != "ok":
+        return ("reject", r[:50])
+    vm = common.link_vm(r)
+    try:
+        with quiet():
+            return ("value", vm.Invoke("f", **args))
+    except BaseException as e:  # noqa
+        return ("vm-error", f"{type(e).__name__}: {str(e)[:60]}")
+
+
+def twocall_rows(job):
+    """Two calls of one overloaded name with different argument types in one module (in one function and in two): every call is
+    resolved on its own; the module is accepted exactly if both calls resolve."""
+    rows, argseq = job
+    out = []
+    single = [(i, a[0]) for i, a in enumerate(argseq) if len(a) == 1]
+    for row in rows:
+        cands = row["cands"]
+        if any(len(c) != 1 for c in cands):
+            continue
+        defs = "".join(f"function g({sig[0]} p0) -> int {{ return {i + 1}; }}\n" for i, sig in enumerate(cands))
+        for i1, t1 in single:
+            for i2, t2 in single:
+                if t1 == t2:
+                    continue
+                c1, c2 = row["row"][i1], row["row"][i2]
+                for shape in ("one-function", "two-functions"):
+                    if shape == "one-function":
+                        src = defs + f"export function f({t1} a, {t2} b) -> int\n{{\n  return g(a) * 10 + g(b);\n}}\n"
+                    else:
+                        src = defs + f"function first({t1} a) -> int\n{{\n  return g(a);\n}}\nexport function f({t1} a, {t2} b) -> int\n{{\n  return first(a) * 10 + g(b);\n}}\n"
+                    case = {"overloads": cands, "first_call": t1, "second_call": t2, "prescribed": [describe(c1, cands), describe(c2, cands)], "source": src, "shape": shape}
+                    try:
+                        with time_limit(300):
+                            kind, v = compile_run(src, {"a": pyval(t1), "b": pyval(t2)})
+                    except CaseTimeout:
+                        out.append(("e2e-timeout", "case did not finish in 300 s", case))
+                        continue
+                    ok = c1 > 0 and c2 > 0
+                    if kind == "reject":
+                        out.append((None, "ok-rejected", None) if not ok else ("twocall-rejects-resolvable", f"both calls g({t1}) and g({t2}) resolve ({describe(c1, cands)}; {describe(c2, cands)}) but the module is refused ({v})", case))
+                    elif not ok:
+                        out.append(("twocall-accepts-unresolvable", f"g({t1}) -> {describe(c1, cands)}, g({t2}) -> {describe(c2, cands)}: the module is accepted", case))
+                    elif kind == "vm-error":
+                        out.append(("twocall-vm-error", f"accepted module fails on the VM: {v}", case))
+                    elif v != c1 * 10 + c2:
+                        out.append(("twocall-wrong-overload", f"g({t1}) then g({t2}) ran overloads {v // 10 if isinstance(v, int) else v}, {v % 10 if isinstance(v, int) else ''}; prescribed {c1}, {c2}", case))
+                    else:
+                        out.append((None, "ok-chosen", None))
+    return out
+
+
+def import_rows(job):
+    """The first overload lives in a separately compiled, imported module, the second one in the importing module: the call
+    sees both."""
+    import os
+    import pickle
+    import tempfile
+    rows, argseq = job
+    out = []
+    from nsl import Compiler
+    for row in rows:
+        cands = row["cands"]
+        if len(cands) != 2:
+            continue
+        d = tempfile.mkdtemp(prefix="c10imp", dir=os.environ.get("VERIF_SCRATCH", "/var/tmp"))
+        cwd = os.getcwd()
+        try:
+            os.chdir(d)
+            lib = f"export function g({', '.join(f'{t} p{j}' for j, t in enumerate(cands[0]))}) -> int {{ return 1; }}\n"
+            with quiet():
+                r = Compiler.Compiler().Compile(lib, {})
+            if r is None:
+                out.append((None, "unjudged-lib-rejected", None))
+                continue
+            pickle.dump(r.IRModule, open("lib.nslir", "wb"))
+            for code, args in zip(row["row"], argseq):
+                src = 'import "lib";\n' + f"function g({', '.join(f'{t} p{j}' for j, t in enumerate(cands[1]))}) -> int {{ return 2; }}\n" + \
+                      f"export function f({', '.join(f'{t} a{j}' for j, t in enumerate(args))}) -> int\n{{\n  return g({', '.join(f'a{j}' for j in range(len(args)))});\n}}\n"
+                case = {"overloads": cands, "imported_overload": cands[0], "local_overload": cands[1], "call_argument_types": args, "prescribed": describe(code, cands), "source": src, "library": lib}
+                try:
+                    with time_limit(300):
+                        st, r2 = common.compile_source(src, {})
+                except CaseTimeout:
+                    out.append(("e2e-timeout", "case did not finish in 300 s", case))
+                    continue
+                if st != "ok":
+                    out.append(judge("import", code, "reject:" + r2[:50], case))
+                    continue
+                # which overload the call names: the callee of the CALL instruction in f (the linked program is not needed for that)
+                from nsl import LinearIR
+                calls = [i for i in r2.IRModule.Functions["f"].Instructions if isinstance(i, LinearIR.CallInstruction)]
+                local = [n for n in r2.IRModule.Functions if n != "f"]
+                if len(calls) != 1:
+                    out.append(("import-shape", f"expected one call instruction in f, found {len(calls)}", case))
+                    continue
+                out.append(judge("import", code, 2 if calls[0].Function in local else 1, case))
+        finally:
+            os.chdir(cwd)
+            import shutil
+            shutil.rmtree(d, ignore_errors=True)
+    return out
+
+
 def chunks(xs, n):
     return [xs[i:i + n] for i in range(0, len(xs), n)]
 
@@ -150,9 +257,20 @@ def run(ctx, args):
             + rnd.sample([r for r in rows if len(r["cands"]) == 3], 200)
     jobs_i = [(c, argseq) for c in chunks(rows, 64 if quick else 512)]
     jobs_e = [(c, argseq) for c in chunks(small, 8)]
+    # a universe with several types of one shape class (int2, float2, float3, int), for modules with two calls of one name
+    resv = ctx.tlc("MC_C10", cfg.replace(f'Tier = "{ctx.tier}"', 'Tier = "vectors"').replace("MaxCands = 3", "MaxCands = 2"), timeout=3000)
+    argseq_v = [r for r in resv.records if "argseq" in r][0]["argseq"]
+    rows_v = [r for r in resv.records if "cands" in r]
+    if len(rows_v) != 21 + 21 * 20:
+        raise common.Machinery(f"expected 441 rows for the vector universe, got {len(rows_v)}")
+    two = [r for r in rows if len(r["cands"]) == 2 and all(len(c) <= 2 for c in r["cands"])]
+    if not quick:
+        two = rnd.sample(two, 300)
     with mp.Pool(16) as pool:
         ri = pool.map(iface_rows, jobs_i)
         re_ = pool.map(e2e_rows, jobs_e)
+        re_ += pool.map(twocall_rows, [(c, argseq_v) for c in chunks(rows_v, 16)])
+        re_ += pool.map(import_rows, [(c, argseq) for c in chunks(two, 6)])
     counts = {}
     evals = 0
     for tag, res_ in (("iface", ri), ("e2e", re_)):
@@ -173,7 +291,9 @@ def run(ctx, args):
         ctx, level="model_checking", evaluations=evals, distinct_nontrivial=nontriv,
         rule=f"TLC enumerates all {nrows} ordered sets of <= 3 distinct signatures with <= 2 parameters over the {'3' if quick else '6'}-type universe "
              f"x all {nsig} argument type lists and prints NslTypes!Best; every cell is replayed at Scope.RegisterFunction/FindFunction; "
-             f"{len(small)} sets are also compiled (both optimisation levels) and run on the VM with one distinct constant per overload. "
+             f"{len(small)} sets are also compiled (both optimisation levels; the caller after, between and before the overloads) and run on the VM with one distinct constant per overload; "
+             f"modules with two calls of one name whose argument types differ within a shape class (universe int, int2, float2, float3; one function and two); {len(two)} pairs of overloads "
+             "split over an imported module and the importing one. "
              "distinct_nontrivial = cells with at least two overloads in which some candidate is viable (a ranking or an ambiguity had to be decided).",
         samples=samples, exhaustive=True, traces_validated=evals,
         assumptions=["convertible = same shape class and size (any component type); cost = number of parameters whose type differs from the argument's",
